@@ -369,6 +369,9 @@ func runCli(c *mon.Case) {
 	case "multi":
 		inFamily = "phylip"
 		k = r.Range(2, 4)
+		if r.Chance(0.2) {
+			k = r.Range(16, 24) // more alignments than the 15 the reader's channel buffers
+		}
 		inStrict = r.Chance(0.4)
 		giveInStrict = inStrict
 		auto = !inStrict && r.Chance(0.3)
